@@ -443,7 +443,7 @@ impl BpDriver {
 
     fn gen_opt(&self, t: &mut Tape, id: usize) -> Opt {
         match t.choose(8) {
-            0 => Opt::Cond(["true", "false", "0", "1", "TICK"][t.choose(5)].to_string()),
+            0 => Opt::Cond(["true", "false", "0", "1"][t.choose(4)].to_string()),
             1 | 2 => Opt::Hit(1 + t.choose(3) as u64),
             3 => Opt::Log(format!("LP{id}")),
             _ => Opt::None,
